@@ -16,7 +16,9 @@ AWKWARD = ['(', ')', '[', ']', '{', '}', '<', '>', '/', '\\/', '|', '&', "'", '"
            'x)[conj]', '(<L', 'a<b', 'a>b', '<<>>', 'a(b', 'a)b', '(a', 'a)', 'it\'s', 'R&D', 'Ph.D.', '2,000', 'naïve', '彼',
            '走る', 'Ω', '%', '#1', '=', 'a=b,c=d', 'x]', '[x', 'S[dcl]', '*', '**', '?', ';', ':', '@', '~', 'T', 'L', '0', '1',
            'the', 'cat', 'sat', 'on', 'mat', 'Mr.', 'co-op', 'a_b', '_x', '-', 'x-', '&amp;', '<b>', "''", '``',
-           '()', '[]', '{}', ')(', '(){}', '[)', '<>', '-LRB--RRB-']
+           '()', '[]', '{}', ')(', '(){}', '[)', '<>', '-LRB--RRB-',
+           # words that look like the header lines of the record formats
+           'ID=4711', 'PID=1', 'ID', 'ID=1,', '#']
 # words and tags containing Unicode white space that is not the ASCII blank: one field of every text format
 UNISPACE = ['10\u00a0000', 'a\u3000b', 'x\u2003y', 'New\u00a0York', 'N\u00a0P']
 PLAIN = ['the', 'cat', 'sat', 'on', 'mat', 'dogs', 'run', 'fast', 'John', 'loves', 'Mary', 'and', 'quickly', 'very']
